@@ -503,6 +503,9 @@ func (s *FlowStats) UnmarshalBinary(data []byte) error {
 
 	for n < int(s.Length) {
 		instr := DecodeInstr(data[n:])
+		if instr.Len() == 0 {
+			return fmt.Errorf("decoded an instruction of length 0")
+		}
 		s.Instructions = append(s.Instructions, instr)
 		n += int(instr.Len())
 	}
